@@ -2,6 +2,7 @@ import Driver.Common
 import LiskVerif.Model.SMTSpec
 import LiskVerif.Model.SMTVerify
 import LiskVerif.Model.SMTBatch
+import LiskVerif.Model.SMTWire
 import LiskVerif.Model.Sha256
 
 /-
@@ -13,6 +14,9 @@ C10 driver.  ops:
   nupdate k=v,...|-                    -> update with the normalised batch
   prove k,k,...|-                      -> S:<hashes> Q:<key:value:bitmap;...>  | err
   verify <tag> <root> <keylen> <keys> <siblings> <queries>  -> true|false|err  (single query: + /1:<verify1>)
+  reverify <n> same|copy|wire          -> the verdict for the arguments of the n-th most recent verify op, computed
+                                          again (`wire`: for the proof after Encode / Decode through the codec
+                                          model and the regenerated smt.Proof schema, Model/SMTWire.lean) | none
 -/
 namespace Driver.SMT
 open LiskVerif LiskVerif.SMT LiskVerif.SMTVerify
@@ -21,6 +25,8 @@ structure DSt where
   keyLen : Nat := 32
   m : List KV := []
   tree : Option HT := none
+  /-- arguments of the verify ops so far, newest first -/
+  hist : List (Bytes × Nat × List Bytes × Proof) := []
 
 def H : HashFn := Sha256.hash
 
@@ -54,6 +60,17 @@ def showList (l : List String) (sep : String) : String :=
 def showProof (p : Proof) : String :=
   "S:" ++ showList (p.siblings.map Hex.encode) "," ++ " Q:" ++
     showList (p.queries.map fun q => Hex.encode q.key ++ ":" ++ Hex.encode q.value ++ ":" ++ Hex.encode q.bitmap) ";"
+
+/-- the output of a `verify` / `reverify` op -/
+def showVerify (rt : Bytes) (kl : Nat) (keys : List Bytes) (p : Proof) : String :=
+  let s := match verify H keys p rt kl with
+    | .ok true => "true"
+    | .ok false => "false"
+    | .err => "err"
+  let s1 := match keys, p.queries with
+    | [k], [q] => "/1:" ++ toString (verifySingle H kl k q p.siblings rt)
+    | _, _ => ""
+  s ++ s1
 
 def step (d : DSt) (w : List String) : DSt × String :=
   let bad := (d, "bad-op")
@@ -96,16 +113,21 @@ def step (d : DSt) (w : List String) : DSt × String :=
   | ["verify", _tag, rt, kl, ks, sibs, qs] =>
     match Hex.decode? rt, kl.toNat?, parseHexList ks, parseHexList sibs, parseQueries qs with
     | some rt, some kl, some keys, some sibs, some qs =>
-      let v := verify H keys ⟨sibs, qs⟩ rt kl
-      let s := match v with
-        | .ok true => "true"
-        | .ok false => "false"
-        | .err => "err"
-      let s1 := match keys, qs with
-        | [k], [q] => "/1:" ++ toString (verifySingle H kl k q sibs rt)
-        | _, _ => ""
-      (d, s ++ s1)
+      ({ d with hist := (rt, kl, keys, ⟨sibs, qs⟩) :: d.hist }, showVerify rt kl keys ⟨sibs, qs⟩)
     | _, _, _, _, _ => bad
+  | ["reverify", n, mode] =>
+    match n.toNat? with
+    | none => bad
+    | some n =>
+      match (if n = 0 then none else d.hist[n - 1]?) with
+      | none => (d, "none")
+      | some (rt, kl, keys, p) =>
+        if mode == "same" || mode == "copy" then (d, showVerify rt kl keys p)
+        else if mode == "wire" then
+          match SMTWire.wireClone Codec.asciiNFC p with
+          | some p' => (d, showVerify rt kl keys p')
+          | none => (d, "wire-err")
+        else bad
   | _ => bad
 
 def main : IO Unit := Driver.run ({} : DSt) step
